@@ -167,7 +167,18 @@ class PreludeMixin:
             raise CheckerError('nested comprehension in %s' % fr.qual)
         g = e.generators[0]
         outs = []
+        evs = []
         for s, it in self.ev(g.iter, st, fr):
+            if isinstance(it, SVal) and isinstance(it.kind, KOpt):
+                # iterating an optional: None is a TypeError, otherwise the value
+                tt, ff = self.fork(s, z3.Not(it.t[0]))
+                if ff is not None:
+                    evs.append((ff, ExcVal('TypeError')))
+                if tt is not None:
+                    evs.append((tt, SVal(it.kind.inner, it.t[1:])))
+            else:
+                evs.append((s, it))
+        for s, it in evs:
             if is_exc(it):
                 outs.append((s, it))
                 continue
@@ -818,6 +829,11 @@ class PreludeMixin:
 
     def b_len(self, st, fr, args, kw):
         v = args[0]
+        if isinstance(v, SVal) and isinstance(v.kind, KOpt) and isinstance(v.kind.inner, (KList, KDict, KSet)):
+            if fr.spec:
+                v = SVal(v.kind.inner, v.t[1:])         # specs are total: guarded by `is not None` where it matters
+            else:
+                v = self.unwrap_opt(st, fr, v)           # len(None): TypeError (obligation)
         if isinstance(v, TupleVal):
             return len(v.items)
         if isinstance(v, (str, tuple, list, dict)):
@@ -1162,6 +1178,23 @@ class PreludeMixin:
             outs = self.getattr(st, fr, args[0], args[1])
             return outs
         raise CheckerError('getattr with symbolic name')
+
+    def b_socket_gethostbyname(self, st, fr, args, kw):
+        """Name resolution as a function of the host name (the contract module declares host_ip); dependency assumption."""
+        f, ks, rk = self.reg.ufuncs['host_ip']
+        return SVal(rk, [f(self.coerce_to(st, args[0], ks[0]).z)])
+
+    def b_hasattr(self, st, fr, args, kw):
+        # an optional attribute of a declared class is modelled as present-or-None: hasattr <=> value is not None
+        obj, name = args
+        if isinstance(name, str) and isinstance(obj, SVal) and isinstance(obj.kind, KRef) and self.has_field(obj.kind.cls, name):
+            v = self.read_field(st, st.heap, obj.z, obj.kind.cls, name)
+            if isinstance(v.kind, KOpt):
+                return SB(z3.Not(v.t[0]))
+            if isinstance(v.kind, KRef) or v.kind == KName:
+                return SB(v.z != 0)
+            return True
+        raise CheckerError('hasattr(%r, %r)' % (obj, name))
 
     # numpy on Vec
     def b_np_zeros(self, st, fr, args, kw):
